@@ -199,12 +199,16 @@ class BroadcastObserver(ObserverBaseComponent):
         if not self._supported_agent(agent):
             return {}
 
-        obs = {other: 0 for other in agent.observation_space[self.key]}
+        message_space = agent.observation_space[self.key]
+        obs = {
+            other: np.zeros(space.shape, dtype=space.dtype)
+            for other, space in message_space.spaces.items()
+        }
         receive_from = self._broadcasting_state.update_message_and_reset_receiving(agent)
         for agent_id, message in receive_from:
-            obs[agent_id] = message
-        obs[agent.id] = agent.message
-        return obs
+            obs[agent_id] = np.array([message], dtype=message_space[agent_id].dtype)
+        obs[agent.id] = np.array([agent.message], dtype=message_space[agent.id].dtype)
+        return {self.key: obs}
 
 
 class AverageMessageDone(DoneBaseComponent):
